@@ -127,6 +127,14 @@ func Verif_C11_Register() {
 	if vr.Choose("override", 2) == 1 {
 		def.NoPassword = vr.Bool("def_nopass")
 	}
+	// the user table of a server whose ACL file lists another user before "default" (NewACL keeps the
+	// order of the file): the default user is found by name, not by position
+	if vr.Choose("default_not_first", 2) == 1 {
+		admin := CreateUser("admin")
+		admin.NoPassword = vr.Bool("admin_nopass")
+		admin.Normalise()
+		a.Users = append([]*User{admin}, a.Users...)
+	}
 	var c net.Conn = &fakeConn{}
 	conn := &c
 	a.RegisterConnection(conn)
